@@ -2130,6 +2130,18 @@ func (c *Ctx) arith(st *State, op token.Token, x, y T, pos token.Pos, check bool
 		if x.K == SBool {
 			return and(x, y)
 		}
+		// x & (2^k - 1) on integers is the non-negative remainder modulo 2^k
+		// (exact for two's complement of any width above k, negative x included)
+		if op == token.AND && x.K == SInt && y.K == SInt {
+			if isIntNumeral(x.S) && !isIntNumeral(y.S) {
+				x, y = y, x
+			}
+			if isIntNumeral(y.S) {
+				if m := numeralVal(y.S); m > 0 && m < 1<<40 && (m+1)&m == 0 {
+					return app(SInt, "mod", x, intLit(m+1))
+				}
+			}
+		}
 	case token.LOR, token.OR:
 		if x.K == SBool {
 			return or(x, y)
